@@ -142,6 +142,7 @@ def _initial_states():
 OPS = [
     ("set", "TITLE", None), ("set", "TITLE", "x"), ("set", "TITLE", SOUP), ("set", "ATTACKS", "a:b"), ("set", "ATTACKS", None), ("set", "VERSION", "0.83"), ("set", "VERSION", None),
     ("set", "", "x"), ("alias", "X Y", "TITLE"), ("del", "TITLE"), ("del", "VERSION"),
+    ("pop", "TITLE"), ("popitem",), ("move_to_end", "VERSION"), ("update", [["TITLE", "u"], ["NEW", "v:w"]]), ("clear",),
     ("aset", "title", "t2"), ("adel", "title"), ("aset", "bgchanges", "b"), ("set", "ANIMATIONS", "a"), ("aset", "displaybpm", "1:2"),
     ("c_append", "blank"), ("c_append", "n2first"), ("c_append", "mid"), ("c_append", "empties"), ("c_append", "last"),
     ("c_insert0", "mid"), ("c_pop",), ("c_reverse",), ("c_set0", "empties"), ("c_assign", ["blank", "n2first"]), ("c_dup",),
@@ -149,6 +150,8 @@ OPS = [
     ("ck_alias", 0, "CREDIT", "NOTES"), ("ck_alias", 0, "X", "STEPSTYPE"), ("ck_alias", 0, "Y", "NOTES2"),
     ("ck_set", 0, "NOTES", ("fresh", "0000\n0001")), ("ck_set", 0, "NOTES", ""), ("ck_set", 0, "NOTES2", "1"),
     ("ck_del", 0, "NOTES"), ("ck_del", 0, "NOTES2"), ("ck_del", 0, "CREDIT"),
+    ("ck_pop", 0, "CREDIT"), ("ck_pop", 0, "STEPSTYPE"), ("ck_popitem", 0), ("ck_move_to_end", 0, "STEPSTYPE"), ("ck_move_to_end", 0, "NOTES"),
+    ("ck_update", 0, [["METER", "7"], ["Z", ""]]), ("ck_clear", 0),
     ("ck_aset", 0, "notes", "n"), ("ck_adel", 0, "notes"), ("ck_aset", 0, "credit", ("fresh", "xy")),
 ]
 
